@@ -104,7 +104,13 @@ def gen_shapes_batch(rng, N):
     others_ends = []
     for _ in range(50):
         c, d = rng.sample(sites, 2)
-        if (c, d) != (a, b) and (c, d) not in others_ends:
+        if rng.random() < 0.6:
+            # share an end with the twins: a wrongly dropped group then shows as a shared link
+            c, d = (a, rng.choice([x for x in sites if x != a])) if rng.random() < 0.5 else \
+                   (rng.choice([x for x in sites if x != b]), b)
+        if rng.random() < 0.35:
+            c, d = a, b                                       # same ends as the twins, told apart by the mode (below)
+        if ((c, d) != (a, b) and (c, d) not in others_ends) or ((c, d) == (a, b) and others_ends.count((a, b)) < 1):
             others_ends.append((c, d))
         if len(others_ends) == rng.choice([2, 2, 3]):
             break
@@ -116,7 +122,7 @@ def gen_shapes_batch(rng, N):
     for k, kind in enumerate(slots):
         s_, t_ = (a, b) if kind == 't' else oe.pop()
         reqs.append({'id': str(k), 'src': f'trx {s_}', 'dst': f'trx {t_}', 'nodes': [], 'loose': [], 'style': 'none',
-                     'mode': 'mode 1', 'bidir': False})
+                     'mode': 'mode 1' if kind == 't' or (s_, t_) != (a, b) else None, 'bidir': False})
         (twins if kind == 't' else others).append(str(k))
 
     def some_others():
@@ -595,7 +601,7 @@ def run(ctx):
             cases.append(json.load(open(fpath)))
         cases += [gen_case(rng) for _ in range(ctx.scale(130, 2400))]
         cases += [gen_vector_case(rng) for _ in range(ctx.scale(25, 400))]
-        cases += [gen_shapes_case(rng) for _ in range(ctx.scale(20, 400))]
+        cases += [gen_shapes_case(rng) for _ in range(ctx.scale(32, 500))]
         cases += [gen_cutoff_case(rng, [80, 81, 79, 82, 80, 81, 78, 83, 80, 81, 77, 84][k % 12]) for k in range(ctx.scale(12, 72))]
     isd_cases, short_terms, short_meta = [], [], []
     process(ctx, rng, cases, 'C12', 'cases', isd_cases, short_terms, short_meta)
